@@ -216,24 +216,28 @@ Inductive ires := IOk (c : ictx) | IBad (c : ictx) | IUnknown.
 
 (* a value for d (one field from argv, or a mapping with one or both fields from a dict-like source), adapted by the
    dataclass branch of adapt_typehints (_typehints.py:1050-1066) with prev_val = the value of d in the namespace:
-     pinned    prev_val a namespace: sub_add_kwargs["default"] := prev_val, WRITTEN into the action's own dict;
+     pinned    prev_val a namespace: sub_add_kwargs["default"] := prev_val (the object), WRITTEN into the action's own dict;
                the fields not given come from sub_add_kwargs["default"] — whoever wrote it, dd0 = as carried in —
                else from the dataclass;
      repaired  the default travels in a copy: fields not given come from prev_val, else from the dataclass.
    bad: the value names a field Data does not have. *)
-Definition d_assign (fx : fixes) (dd0 : option dv) (c : ictx) (fa fb : option str) (bad : bool) : ires :=
-  let c1 := match ic_d c with
-            | Some cur => if fx_dd fx then c else with_dw (Some cur) c
-            | None => c
-            end in
+Definition d_assign (fx : fixes) (dd0 : option dv) (inplace : bool) (c : ictx) (fa fb : option str) (bad : bool) : ires :=
   let base := match ic_d c with
               | Some cur => cur
               | None => if fx_dd fx then dv0 else match dd0 with Some w => w | None => dv0 end
               end in
   let ok f := match f with Some x => is_int x | None => true end in
   let upd (f : option str) (x : str) := match f with Some y => y | None => x end in
-  if bad || negb (ok fa && ok fb) then IBad c1
-  else IOk (with_d (Some (upd fa (fst base), upd fb (snd base))) c1).
+  let new := (upd fa (fst base), upd fb (snd base)) in
+  (* what the action's dict holds afterwards: the OBJECT prev_val.  A single field from argv is set on that very
+     object (the stored default follows); a mapping from a dict-like source gives a new object (it keeps the old) *)
+  let wr (x : dv) := match ic_d c with
+                     | Some cur => if fx_dd fx then c else with_dw (Some (if inplace then x else cur)) c
+                     | None => c
+                     end in
+  if bad || negb (ok fa && ok fb)
+  then IBad (match ic_d c with Some cur => wr cur | None => c end)
+  else IOk (with_d (Some new) (wr new)).
 Definition opt_field (f : str) : option str := match f with [] => None | _ => Some f end.
 
 (* one key/value against one parser's declaration (no sub-commands): _check_value_key / ActionTypeHint.
@@ -243,13 +247,13 @@ Definition apply_local (fx : fixes) (dd0 : option dv) (pd : pdecl) (prefix : str
   if pd_dc pd && str_eqb h s_d then
     match rest with
     | None => match split_comma v [] with           (* dict-like source: d = "<a>,<b>", empty = field not given *)
-              | [fa; fb] => d_assign fx dd0 c (opt_field fa) (opt_field fb) false
+              | [fa; fb] => d_assign fx dd0 false c (opt_field fa) (opt_field fb) false
               | _ => IBad c
               end
     | Some param =>                                  (* argv: --d.<field>=<v> *)
-        if str_eqb param s_a then d_assign fx dd0 c (Some v) None false
-        else if str_eqb param s_b then d_assign fx dd0 c None (Some v) false
-        else d_assign fx dd0 c None None true
+        if str_eqb param s_a then d_assign fx dd0 true c (Some v) None false
+        else if str_eqb param s_b then d_assign fx dd0 true c None (Some v) false
+        else d_assign fx dd0 true c None None true
     end
   else
   match rest with
@@ -352,9 +356,6 @@ Definition final_out (D : decl) (sel : option str) (c : ictx) : out :=
 (* did the call get as far as re-checking the values (check_values reaches d: no unknown key before it) *)
 Definition validated (o : out) : bool :=
   match o with OOk _ _ | OErr EPost => true | _ => false end.
-(* the final validation re-checks d *)
-Definition revalidates_d (c : ictx) (o : out) : bool :=
-  validated o && match ic_d c with Some _ => true | None => false end.
 (* sub_add_kwargs["default"] of d after a call that ended in context c: the value of d re-checked by the final
    validation (prev_val = the value itself), else the last write of the call, else what was there *)
 Definition dd_after (fx : fixes) (old : option dv) (c : ictx) (o : out) : option dv :=
@@ -376,7 +377,8 @@ Definition dk_after (pd : pdecl) (skip_validation skip_none skip_default : bool)
 (* process-wide variables as threaded through one call *)
 Record cvars := { cv_pk : option (option bool * bool); cv_sap : option label; cv_dk : option (bool * bool) }.
 
-(* adapting a value of d runs the throw-away class parser of Data: subclass_arg_parser is left pointing at it *)
+(* a field of d given on the command line goes through the throw-away class parser of Data: subclass_arg_parser
+   is left pointing at it *)
 Definition sap_inner (cv : cvars) : cvars := {| cv_pk := cv_pk cv; cv_sap := Some LInner; cv_dk := cv_dk cv |}.
 
 (* print_config_if_requested (_actions.py:280-290) on the ROOT parser; `has x` says whether cfg has a
@@ -533,7 +535,6 @@ Fixpoint scan_root (fx : fixes) (dd0 : option dv) (D : decl) (i : nat) (hs : boo
                -> _parse_common -> print_config_if_requested: the request is consumed HERE, with the
                content of the config alone.  Inside parse_args --print_shtab exists already (repaired: it is
                no configuration key). *)
-            let cv := if pd_dc pd && items_mention_d items then sap_inner cv else cv in
             match apply_items (apply_item fx dd0 D (negb (fx_sh fx))) UKeep c items with
             | AFail c' => stopc c' cv (OErr EPre)
             | AOk c' =>
@@ -606,14 +607,11 @@ Definition exec_items (fx : fixes) (D : decl) (v : view) (unknown_ok : umode) (i
   | AFail c =>
       (OErr EPre, {| w_pending := v_pending v; w_shtab := v_shtab v; w_help_skip := v_help_skip v;
                      w_ddef := dd_after fx (v_ddef v) c (OErr EPre);
-                     w_cv := if pd_dc (d_root D) && items_mention_d items then sap_inner (v_cv v) else v_cv v;
-                     w_args := [] |})
+                     w_cv := v_cv v; w_args := [] |})
   | AOk c =>
-      let '(o, pend, cv) := parse_common D (v_pending v) None c
-                              (if pd_dc (d_root D) && items_mention_d items then sap_inner (v_cv v) else v_cv v) in
+      let '(o, pend, cv) := parse_common D (v_pending v) None c (v_cv v) in
       (o, {| w_pending := pend; w_shtab := v_shtab v; w_help_skip := v_help_skip v;
-             w_ddef := dd_after fx (v_ddef v) c o; w_cv := if revalidates_d c o then sap_inner cv else cv;
-             w_args := [] |})
+             w_ddef := dd_after fx (v_ddef v) c o; w_cv := cv; w_args := [] |})
   end.
 (* validate(cfg) and the validation inside dump(cfg) re-check d with prev_val = its own value *)
 Definition dd_checked (fx : fixes) (old d : option dv) : option dv :=
@@ -631,7 +629,7 @@ Definition exec (fx : fixes) (D : decl) (i : nat) (v : view) (k : opk) : out * w
       let fin o pend cv :=
         (o, {| w_pending := if fx_pc fx then PNone else pend; w_shtab := true; w_help_skip := so_hs so;
                w_ddef := dd_after fx (v_ddef v) (so_c so) o;
-               w_cv := if revalidates_d (so_c so) o then sap_inner cv else cv; w_args := args |}) in
+               w_cv := cv; w_args := args |}) in
       match so_res so with
       | SStop o => fin o (so_pend so) (so_cv so)
       | SGo =>
